@@ -125,9 +125,10 @@ def analyse(case, x, tag, out):
         z_g = zp.to(torch.float64).reshape(-1)
         # (3) full range
         limit = (hi - lo) / n * (1 + 4 * u) + eta
-        # an ideal scale below the dtype's smallest normal number cannot be represented up to (relative) rounding:
-        # such groups stay subject to the non-saturation clause only
-        bad = nz & (s_g > limit) & ((hi - lo) / n >= gen.MINNORMAL[dtype])
+        # an ideal scale that rounds to zero in the dtype (below its subnormal quantum) cannot be represented at all (quanto
+        # then falls back to a unit scale): such groups stay subject to the non-saturation clause only. Subnormal but
+        # representable scales are covered by the absolute term eta of the limit.
+        bad = nz & (s_g > limit) & ((hi - lo) / n >= eta)
         if bool(bad.any()):
             i = int(torch.nonzero(bad)[0])
             out.fail(f"{tag}/scale-too-large", f"group {i}: scale {s_g[i].item():.6g} > (hi-lo)/{n} = {((hi - lo) / n)[i].item():.6g} for range [{lo[i].item():.6g},{hi[i].item():.6g}]")
@@ -145,7 +146,7 @@ def analyse(case, x, tag, out):
         gmax = float(G[-1])
         qmax = float(torch.finfo(qtype.dtype).max if qtype.is_floating_point else 127) if case["entry"] == "absmax_scale" else 127.0
         limit = amax / qmax * (1 + 2 * u) + eta
-        bad = nz & (s_g > limit) & (amax / qmax >= gen.MINNORMAL[dtype])
+        bad = nz & (s_g > limit) & (amax / qmax >= eta)
         if bool(bad.any()):
             i = int(torch.nonzero(bad)[0])
             out.fail(f"{tag}/scale-too-large", f"group {i}: scale {s_g[i].item():.6g} > absmax/qmax = {(amax / qmax)[i].item():.6g}")
